@@ -61,6 +61,12 @@ func ModelT(ts uint64) int {
 	return int(ms - BaseMs)
 }
 
+// Logical is the logical part of a hybrid timestamp.
+func Logical(ts uint64) int {
+	_, l := tsoutil.ParseHybridTs(ts)
+	return int(l)
+}
+
 type Coll struct {
 	Name  string
 	ID    int64
@@ -85,6 +91,7 @@ func (c *Coll) Info() *pb.CollectionInfo {
 
 // World is everything that survives a crash.
 type World struct {
+	InfoFail map[string]bool // collections the downstream refuses to describe (start of their replication fails)
 	mu      sync.Mutex
 	seq     int
 	events  []hx.Event
@@ -377,7 +384,8 @@ func ids(ps []*msgpb.MsgPosition) []string {
 }
 
 func (d *dataView) ReplicateMessage(ctx context.Context, param *coreapi.ReplicateMessageParam) error {
-	ev := hx.Event{"ev": "ack", "q": param.ChannelName, "ids": ids(param.EndPositions), "n": len(param.MsgsBytes), "endt": ModelT(param.EndTs)}
+	ev := hx.Event{"ev": "ack", "q": param.ChannelName, "ids": ids(param.EndPositions), "n": len(param.MsgsBytes), "endt": ModelT(param.EndTs),
+		"endl": Logical(param.EndTs)}
 	err := d.w.step(d.epoch, ev, &d.w.FailAck, nil)
 	if err != nil {
 		return err
@@ -503,6 +511,7 @@ func NewInc(w *World, maxCount int) *Inc {
 				tc.Partitions[n] = idsPair[1]
 			}
 		}
+		tc.Fail = w.InfoFail[c.Name]
 		inc.Target.Set("default", c.Name, tc)
 	}
 	inc.CDC = server.NewMetaCDCForVerif(cfg, &storeView{w: w, epoch: epoch}, nil)
